@@ -81,20 +81,18 @@ class PatternToken(RegexpBaseToken):
 
 # TODO добавить условие для локализации
 class LiteralToken(RegexpBaseToken):
-    regexp = r'\"(.*?)\"|(\d+)((\.)(\d+))?(e(-?\d+))?|(TRUE(\(\))?)|(FALSE(\(\))?)'
+    regexp = r'\"(.*?)\"|(\d+)((\.)(\d+))?([eE]([-+]?\d+))?|(TRUE(\(\))?)|(FALSE(\(\))?)'
     value_range = [0, -1]
 
     def __init__(self, *args, **kwargs):
         super().__init__(*args, *kwargs)
 
         if self.value[2]:
-            if self.value[5] or (self.value[7] and int(self.value[7]) < 0):
+            if self.value[5] or self.value[7]:
+                # a number written with a fraction or an exponent is the double nearest to its text
                 real_value = float(self.value[0])
             else:
                 real_value = int(self.value[2])
-                if self.value[7]:
-                    # TODO in theory, the degree can be calculated using the expression
-                    real_value *= 10 ** int(self.value[7])
             real_value = str(real_value)
         elif self.value[1] or self.value[0] == '""':
             real_value = repr(self.value[1])
